@@ -58,6 +58,15 @@ def call(op: str, a: dict) -> dict:
                 F, G = fg.evaluate(K, X, W, f, g)
                 F2 = fg.evaluate(K, X, W, f, None)
                 G2 = fg.evaluate(K, X, W, None, g)
+                # the kernel behind "all modes at once" against "one mode at a time", also for integer-typed factor
+                # matrices and a tensor with non-integer entries (the element-gradient tensor is such a tensor)
+                Yt = ttb.tensor(np.asarray(X.full().data if hasattr(X, "subs") else X.data, dtype=float) * 0.5 + 0.25)
+                for Ui in ([np.asarray(u, dtype=float) for u in K.factor_matrices],
+                           [np.round(u).astype(np.int64) for u in K.factor_matrices]):
+                    allm = Yt.mttkrps(Ui)
+                    if not all(np.allclose(np.asarray(allm[n]), np.asarray(Yt.mttkrp(Ui, n)), rtol=1e-12, atol=1e-12)
+                               for n in range(len(Ui))):
+                        return {"st": "all-modes-at-once-differs-from-one-mode-at-a-time"}
                 if c05.snapshot(K) != snap[0] or c05.snapshot(X) != snap[1] or (W is not None and not np.array_equal(W, snap[2])):
                     return {"st": "model-data-or-weights-changed-by-the-evaluation"}
                 if F2 != F or not all(np.array_equal(p, q) for p, q in zip(G, G2)):
@@ -112,9 +121,9 @@ def eval_terms(terms: List[dict], x, m, r, eps):
 DOMAIN = {   # data values, model values (inside the loss's domain)
     "gaussian": ([-1.5, 0.0, 2.0, 3.25], [-2.0, -0.5, 0.0, 0.7, 3.0]),
     "bernoulli_odds": ([0.0, 1.0], [1e-3, 0.1, 0.5, 1.0, 2.5, 10.0]),
-    "bernoulli_logit": ([0.0, 1.0], [-3.0, -0.5, 0.0, 0.7, 2.0]),
+    "bernoulli_logit": ([0.0, 1.0], [-300.0, -95.0, -3.0, -0.5, 0.0, 0.7, 2.0, 40.0, 95.0, 300.0]),
     "poisson": ([0.0, 1.0, 2.0, 7.0], [1e-3, 0.1, 0.5, 1.0, 2.5, 10.0]),
-    "poisson_log": ([0.0, 1.0, 2.0, 7.0], [-3.0, -0.5, 0.0, 0.7, 2.0]),
+    "poisson_log": ([0.0, 1.0, 2.0, 7.0], [-300.0, -3.0, -0.5, 0.0, 0.7, 2.0, 95.0]),
     "rayleigh": ([0.25, 1.0, 2.5], [1e-2, 0.1, 0.5, 1.0, 2.5, 10.0]),
     "gamma": ([0.25, 1.0, 2.5], [1e-2, 0.1, 0.5, 1.0, 2.5, 10.0]),
     "negative_binomial": ([0.0, 1.0, 2.0, 7.0], [1e-3, 0.1, 0.5, 1.0, 2.5, 10.0]),
